@@ -963,6 +963,7 @@ func (s *Session) runOutputOncePacket() {
 // input reads incoming packets from network and assemble
 // them in the receive buffer and receive queue.
 func (s *Session) input(seg *segment) error {
+	verifPoint("session-input", s)
 	protocol := seg.Protocol()
 	if s.isClient {
 		if protocol != openSessionResponse && protocol != dataServerToClient && protocol != dataServerToClientLowEntropy && protocol != ackServerToClient && protocol != closeSessionRequest && protocol != closeSessionResponse {
